@@ -87,6 +87,10 @@ func (s *CatSc) Run(env *core.Env, st *core.Stats) (vs []core.Violation) {
 		st.Sample(map[string]any{"scenario": s, "events": len(ro.events), "yields": ro.yields, "fake_time_ns": ro.simTime})
 	}
 	for _, e := range ro.events {
+		if e.kind == "driver-unusable" {
+			add("driver-listing", "unusable", "the driver cannot list the ports of a working helper: %s", e.s)
+			return vs
+		}
 		if e.kind == "thread-panic" {
 			add("panic", "panic:"+structKeyOf(e.s), "a lifecycle call panicked: %s", e.s)
 			return vs
